@@ -123,7 +123,8 @@ def gen_case(rng, tier, idx):
             if s["kind"] in ("foreach_collect", "foreach_execute"):
                 s["items"] = [first] + [x for x in s["items"] if x != first]
             if s["kind"] == "datasource_provider_list":
-                s["content"] = [list(big)] + s["content"] + [["id0:tiny"]]
+                # ... followed by many medium-sized ones that the workers write side by side into one directory
+                s["content"] = [list(big)] + s["content"] + [["id%d:m%d" % (n, j) + "M" * 40 for n in range(150)] for j in range(12)] + [["id0:tiny"]]
     return case
 
 
